@@ -5,8 +5,8 @@ removal carry the happiness comparison on the layout that is actually used;
 the threshold reaches both comparisons from the encoding parameters; failure
 paths abort what was allocated; every remote write of the Encoder is wired to
 _remove_shareholder and a failure reaches Encoder.err; the share-holder proxy (WriteBucketProxy) hands the
-outcome of every remote write to that wiring and closes a share only after its last write succeeded
-(DESIGN.md section 5, C06)."""
+outcome of every remote write to that wiring and closes a share only after its last write succeeded;
+every write Deferred of a push stage is gathered (DESIGN.md section 5, C06)."""
 from sa.h import *
 
 EXPLANATION = (
@@ -16,8 +16,9 @@ EXPLANATION = (
     "pair is (self.use_trackers, P) - the layout evaluated is the layout returned; the unhappy edge always reaches "
     "_failed; (2) the threshold is the 'happy' encoding parameter: positional agreement from the parameter tuple "
     "through Encoder.min_happiness and get_param('share_counts') to the min_happiness argument; (3) _failed aborts "
-    "every tracker of use_trackers and never returns, ServerTracker.abort reaches abort() of every bucket, the "
-    "proxy relays callRemote('abort'); (4) every Deferred of a remote call on self.landlords[i] in Encoder gets "
+    "every tracker of use_trackers and never returns, ServerTracker.abort reaches abort() of every bucket "
+    "(abort_some_buckets visits every requested share number and skips the abort only on 'n not in self.buckets'), "
+    "the proxy relays callRemote('abort'); (4) every Deferred of a remote call on self.landlords[i] in Encoder gets "
     "addErrback(self._remove_shareholder, i, ..) as its first failure handler on every path before it escapes; "
     "(5) _remove_shareholder aborts and forgets the landlord (landlords and servermap) and returns normally only "
     "with self.min_happiness <= servers_of_happiness(self.servermap) recomputed after the removal; (6) "
@@ -30,10 +31,18 @@ EXPLANATION = (
     "Deferred returned to the Encoder on every path, and no errback/addBoth/plain DeferredList on the way replaces "
     "its failure, so that (4) really observes a failed write; (9) WriteBucketProxy.close flushes the buffered tail "
     "unless no bytes are queued and sends callRemote('close') only from a success callback of (or after awaiting) "
-    "the Deferred of that final write, so a share is finalised and counted only when complete. "
+    "the Deferred of that final write, so a share is finalised and counted only when complete; "
+    "(10) in every push stage the Deferred of each remote call on a landlord (made in the stage or by a send_* "
+    "helper) is, on every path, an element of the list handed to self._gather_responses (list not re-bound or "
+    "emptied in between), so that the stage waits for it and the UploadUnhappinessError of (5) is observed by (6). "
     "Undecided: the value computed by servers_of_happiness (C08), server-side deletion on abort (C22), "
     "interleavings of responses, the byte accounting of _WriteBuffer (that 'queued bytes == 0' really means "
-    "everything was sent), proxies other than WriteBucketProxy and its subclasses.")
+    "everything was sent) and the offset/length preconditions of put_*/close that make the written bytes add up to a "
+    "complete share, that the landlords/servermap CHKUploader.set_shareholders hands to the Encoder equal the "
+    "layout get_shareholders evaluated (an over-approximated servermap is a value-level error), which "
+    "configuration value (per-upload or default 'happy') ends up in the parameter tuple, that every "
+    "allocate_buckets response has arrived before the final evaluation (the layout only grows afterwards; late "
+    "allocations would merely leak until disconnect), proxies other than WriteBucketProxy and its subclasses.")
 TECHNIQUE = "static analysis: CFG x typestate monitor for the happiness gate, Deferred-chain discipline, positional agreement"
 
 SEL = "immutable.upload:Tahoe2ServerSelector"
@@ -273,6 +282,29 @@ def landlord_calls(m):
         ix = landlord_index(fnorm, node[0], c.func.value)
         if ix is not None:
             out.append((c, node[0], ix))
+    return out
+
+
+def list_adds(n):
+    """(list variable, element expression) for every element the CFG node puts into a list held in a local:
+    L.append(e), L.insert(i, e), L.extend([e, ..]), L += [e, ..], L = [e, ..], L = [e for ..]."""
+    out = []
+    seq = lambda x: list(x.elts) if isinstance(x, (ast.List, ast.Tuple)) else (
+        [x.elt] if isinstance(x, ast.ListComp) else [])
+    for a in node_calls(n):
+        if isinstance(a.func, ast.Attribute) and isinstance(a.func.value, ast.Name):
+            L = a.func.value.id
+            if a.func.attr == "append" and len(a.args) == 1:
+                out.append((L, a.args[0]))
+            elif a.func.attr == "insert" and len(a.args) == 2:
+                out.append((L, a.args[1]))
+            elif a.func.attr == "extend" and len(a.args) == 1:
+                out.extend((L, e) for e in seq(a.args[0]))
+    a = n.ast if n.kind == "stmt" else None
+    if isinstance(a, ast.AugAssign) and isinstance(a.op, ast.Add) and isinstance(a.target, ast.Name):
+        out.extend((a.target.id, e) for e in seq(a.value))
+    elif isinstance(a, ast.Assign) and len(a.targets) == 1 and isinstance(a.targets[0], ast.Name):
+        out.extend((a.targets[0].id, e) for e in seq(a.value))
     return out
 
 
@@ -891,6 +923,19 @@ def run(ctx: Context):
                                 "share number that HAS a bucket (the only admissible skip is '%s not in self.buckets'): "
                                 "the allocation of a failed upload stays on the server (path: %s)" % (t, t, w.brief()), w)
                     break
+
+            # ... and the loop is left only when the requested share numbers are exhausted
+            def tr2(n, lab, nxt, st, _h=head):
+                if lab == "exc" or infeasible(n, lab) or (n is _h and lab == "done"):
+                    return None
+                return 0
+            visited, parent = explore(tcfg, 0, tr2)
+            for (nid, st) in sorted(visited):
+                if tcfg.nodes[nid].kind == "exit":
+                    w = witness(tcfg, parent, (nid, st))
+                    r.violation(tb, tb.loc(lp), "abort_some_buckets can return before all requested share numbers "
+                                "were visited: the remaining buckets are not aborted (path: %s)" % w.brief(), w)
+                    break
         r.require(okloop, tb, tb.loc(), "abort_some_buckets no longer calls self.buckets[n].abort() for each "
                   "requested share number")
         wp = idx.func("immutable.layout:WriteBucketProxy.abort")
@@ -1369,33 +1414,18 @@ def run(ctx: Context):
                 _chain, outer = chained_regs(pm, c)
                 p = pm.get(id(outer))
                 lists = []
-                if isinstance(p, ast.Call) and isinstance(p.func, ast.Attribute) and p.func.attr == "append" \
-                        and isinstance(p.func.value, ast.Name) and p.args and p.args[0] is outer:
-                    lists.append((cfg_node_of(sf, p), p.func.value.id))
-                elif isinstance(p, ast.List) or (isinstance(p, ast.ListComp) and p.elt is outer):
-                    q = pm.get(id(p))
-                    if isinstance(q, ast.Call) and is_gather(q) and q.args and q.args[0] is p:
-                        continue
-                    if isinstance(q, ast.Assign) and q.value is p and len(q.targets) == 1 \
-                            and isinstance(q.targets[0], ast.Name):
-                        lists.append((cfg_node_of(sf, p), q.targets[0].id))
-                    else:
-                        raise AnalysisError("%s: the list holding the Deferred of %s is used in a context that is "
-                                            "not modelled: %s" % (short(sf), what, src(sf, q)))
-                elif isinstance(p, ast.Assign) and p.value is outer and len(p.targets) == 1 \
+                if isinstance(p, ast.Assign) and p.value is outer and len(p.targets) == 1 \
                         and isinstance(p.targets[0], ast.Name):
                     v = p.targets[0].id
                     start = cfg_node_of(sf, outer)
 
-                    def append_of(n, _v=v):
-                        for a in node_calls(n):
-                            if isinstance(a.func, ast.Attribute) and a.func.attr == "append" and a.args \
-                                    and isinstance(a.func.value, ast.Name):
-                                b = strip_regs(a.args[0])
-                                if isinstance(b, ast.Name) and b.id == _v:
-                                    return a.func.value.id
+                    def added_to(n, _v=v):
+                        for (L, e) in list_adds(n):
+                            b = strip_regs(e)
+                            if isinstance(b, ast.Name) and b.id == _v:
+                                return L
                         return None
-                    lost = must_pass(cfg, start, lambda l: l != "exc", lambda n: append_of(n) is not None,
+                    lost = must_pass(cfg, start, lambda l: l != "exc", lambda n: added_to(n) is not None,
                                      lambda n, _s=start, _v=v: n.kind == "exit" or (
                                          n is not _s and n.kind in ("stmt", "iter", "with", "except")
                                          and _v in node_stores(n)))
@@ -1408,16 +1438,23 @@ def run(ctx: Context):
                                     % (short(sf), what, v, short(sf), w.brief()), w)
                         continue
                     for n in cfg.nodes:
-                        if n.kind == "stmt" and append_of(n) is not None:
-                            lists.append((n, append_of(n)))
+                        if n.kind == "stmt" and added_to(n) is not None:
+                            lists.append((n, added_to(n)))
                 elif isinstance(p, ast.Expr):
                     r.violation(sf, sf.loc(c), "%s: the Deferred of %s is dropped (statement value discarded) instead "
                                 "of being gathered: its failure / the UploadUnhappinessError of _remove_shareholder is "
                                 "never observed" % (short(sf), what))
                     continue
                 else:
-                    raise AnalysisError("%s: the Deferred of %s is used in a context that is not modelled: %s" % (
-                        short(sf), what, src(sf, p)))
+                    q = pm.get(id(p)) if isinstance(p, (ast.List, ast.Tuple, ast.ListComp)) else None
+                    if isinstance(q, ast.Call) and is_gather(q) and q.args and q.args[0] is p:
+                        continue        # self._gather_responses([.. the call ..])
+                    A = cfg_node_of(sf, outer)
+                    here = [L for (L, e) in list_adds(A) if e is outer]
+                    if not here:
+                        raise AnalysisError("%s: the Deferred of %s is used in a context that is not modelled: %s" % (
+                            short(sf), what, src(sf, p)))
+                    lists.extend((A, L) for L in here)
                 for (A, L) in lists:
                     gate = lambda n, _L=L: any(is_gather(x, _L) for x in node_calls(n))
 
@@ -1425,7 +1462,8 @@ def run(ctx: Context):
                         if n is _A or _g(n) or n.kind not in ("stmt", "iter", "with", "except"):
                             return False
                         st = node_stores(n)
-                        if _L in st or (_L + "[]") in st:
+                        if (_L in st and not (isinstance(n.ast, ast.AugAssign) and isinstance(n.ast.op, ast.Add))) \
+                                or (_L + "[]") in st:
                             return True
                         return any(isinstance(x.func, ast.Attribute) and x.func.attr in ("pop", "remove", "clear")
                                    and isinstance(x.func.value, ast.Name) and x.func.value.id == _L
